@@ -2,6 +2,7 @@ package oracle
 
 import (
 	"fmt"
+	"math"
 	"math/rand"
 	"sort"
 
@@ -68,6 +69,9 @@ func layeringCase(prop string, seed int64, tier string, idx int, layerer int) *c
 		c.Family, c.Edges = g.Family, gen.Names(g)
 	case 6:
 		g := gen.Slack(r)
+		if r.Intn(2) == 0 {
+			g = gen.Hub(r)
+		}
 		c.Family, c.Edges = g.Family, gen.Names(g)
 	case 1, 2:
 		g := gen.Skip(r, 3+r.Intn(6), 1, 5, 0.35, 1+r.Intn(8), 2+r.Intn(5))
@@ -82,6 +86,12 @@ func layeringCase(prop string, seed int64, tier string, idx int, layerer int) *c
 		c.Family, c.Edges = g.Family, gen.Names(g)
 	case 5:
 		g := gen.Multi(r, gen.DAG(r, 4+r.Intn(10), 0.3), 0.3, 0.15)
+		c.Family, c.Edges = g.Family, gen.Names(g)
+	case 7:
+		// component sizes that are perfect squares (the budget is thoroughness * int(sqrt(|V|))), dense enough to need pivots
+		n := []int{4, 9, 9, 16, 16, 25}[r.Intn(6)]
+		g := gen.Connect(r, gen.DAG(r, n, (2.5+2*r.Float64())/float64(n)), true)
+		g.Family = "F1-dag-square"
 		c.Family, c.Edges = g.Family, gen.Names(g)
 	default:
 		c.Family, c.Edges = smallGraph(r)
@@ -105,13 +115,15 @@ func layeringCase(prop string, seed int64, tier string, idx int, layerer int) *c
 	o.LayerSpacing = []*float64{fptr(1), nil, fptr(0.25 + dyadic(r, 50))}[r.Intn(3)]
 	c.Regime = "dyadic"
 	if layerer == 0 {
-		switch r.Intn(5) {
+		switch r.Intn(6) {
 		case 0:
 			o.Thoroughness = uptr(1)
 		case 1:
 			o.Thoroughness = uptr(7)
 		case 2:
 			o.Thoroughness = uptr(100)
+		case 3:
+			o.Thoroughness = uptr(uint(2 + r.Intn(3)))
 		}
 	}
 	c.Opts = o
@@ -147,11 +159,17 @@ func init() {
 			if sk != nil {
 				return *sk
 			}
+			// the documented pivot budget is thoroughness * int(sqrt(|V|)) per component (README / option docs); it is computed
+			// here from the case, not taken from the library, so that a run that stopped short of it is judged
+			thor := 28
+			if c.Opts.Thoroughness != nil {
+				thor = int(*c.Opts.Thoroughness)
+			}
 			capped, pivots := false, 0
 			for _, ns := range res.NS {
 				if ns.Balance == 1 {
 					pivots += ns.Iters
-					if ns.NegLeft && ns.Iters >= ns.MaxIter {
+					if ns.NegLeft && ns.Iters >= thor*int(math.Sqrt(float64(ns.Nodes))) {
 						capped = true
 					}
 				}
@@ -322,6 +340,9 @@ func init() {
 					c.Family, c.Edges = g.Family, gen.Names(g)
 				}
 				o.Breaker = 2
+				// the option that makes the *greedy* breaker random must not affect the depth-first breaker
+				o.RandomFlag = r.Intn(4) == 0
+				o.Explicit = r.Intn(2) == 0
 			} else {
 				// no reversal on acyclic inputs
 				switch r.Intn(4) {
